@@ -116,14 +116,19 @@ def pole_zero_response(run, h, rng):
     from hvsrpy.instrument_response import InstrumentTransferFunction
     from scipy.signal.windows import tukey as _tukey
     ts = h.TimeSeries
-    for trial in range(3 if run.quick else 20):
-        n = int(rng.choice([128, 200, 255]))
-        fs = float(rng.choice([50.0, 100.0]))
+    # ONE response object per sensor, used for every record of that sensor - also for records that share the FFT length but not
+    # the time step (the response is a function of frequency in Hz, not of the bin number)
+    sensors = []
+    for k_ in range(2):
+        poles = [[-4.44 + 4.44j, -4.44 - 4.44j], [-0.037 + 0.037j, -0.037 - 0.037j, -251.3, -131.0 + 467.3j, -131.0 - 467.3j]][k_]
+        zeros = [0j, 0j]
+        sens, a0 = (400.0, 1.0) if k_ == 0 else (1.5e3, 2.5)
+        sensors.append((poles, zeros, sens, a0, InstrumentTransferFunction(poles=poles, zeros=zeros, instrument_sensitivity=sens, normalization_factor=a0)))
+    plan = [(200, 100.0, 0), (200, 50.0, 0), (200, 200.0, 0), (255, 100.0, 1), (255, 50.0, 1), (128, 100.0, 1)]
+    for trial in range(len(plan) if run.quick else 20):
+        n, fs, k_ = plan[trial] if trial < len(plan) else (int(rng.choice([128, 200, 255])), float(rng.choice([50.0, 100.0])), trial % 2)
         dt = 1.0 / fs
-        poles = [[-4.44 + 4.44j, -4.44 - 4.44j], [-0.037 + 0.037j, -0.037 - 0.037j, -251.3, -131.0 + 467.3j, -131.0 - 467.3j]][trial % 2]
-        zeros = [[0j, 0j], [0j, 0j]][trial % 2]
-        sens, a0 = float(rng.choice([400.0, 1.5e3])), float(rng.choice([1.0, 2.5]))
-        itf = InstrumentTransferFunction(poles=poles, zeros=zeros, instrument_sensitivity=sens, normalization_factor=a0)
+        poles, zeros, sens, a0, itf = sensors[k_]
         width = float(rng.choice([0.0, 0.3]))
         y = rng.normal(size=n) + 3.0
         rec = h.SeismicRecording3C(ts(y, dt), ts(2 * y, dt), ts(y[::-1], dt))
